@@ -324,6 +324,37 @@ def classify(arm_list):
     return names, dedupe(v1), dedupe(flag), dedupe(content)
 
 
+def once_flags(arm_list, guarded):
+    """The once-only guard by a `seen_*` flag is translated only in its exact known text: a guard arm
+    `b"x" if seen_f => return Err(..)` and, in the unguarded arm of the same name, the statement `seen_f = true;`.
+    Any other mention of a `seen_*` variable inside the dispatch (`&mut seen_f` handed to a helper, `mem::replace`, a
+    compound guard) is an unknown shape => NotFound => pinned section.  A name with the guard but without the
+    assignment, or with the assignment but without the guard, is the known shape with different content: it is not
+    listed, and the tie theorem fails."""
+    guard_of, set_of = {}, {}
+    for pat, body in arm_list:
+        ns = names_of(pat)
+        guard = pat.split(" if ", 1)[1].strip() if " if " in pat else ""
+        if re.search(r"\bseen_\w+", guard):
+            if not re.fullmatch(r"seen_\w+", guard):
+                raise NotFound("compound seen-flag guard: " + guard)
+            if not re.search(r"return\s+Err\(", body):
+                raise NotFound("seen-flag guard arm does not return an error")
+            for n in ns:
+                guard_of[n] = guard
+            rest = body
+        else:
+            rest = body
+            for m in re.finditer(r"(?<![\w.&])(seen_\w+)\s*=\s*true\s*;", body):
+                if guard == "":
+                    for n in ns:
+                        set_of[n] = m.group(1)
+            rest = re.sub(r"(?<![\w.&])seen_\w+\s*=\s*true\s*;", "", body)
+        if re.search(r"\bseen_\w+", rest):
+            raise NotFound("seen-flag used outside the known guard/assignment text")
+    return [n for n in guarded if guard_of.get(n) is not None and set_of.get(n) == guard_of.get(n)]
+
+
 def event_arms(fnbody):
     blk, _ = match_block(fnbody, r"reader\.read_event_into\(buf\)\?")
     return arms(blk)
@@ -346,6 +377,8 @@ def sec_dispatch_body(ps, md):
         raise NotFound("Start/Empty arms of parse_body")
     sn, sv1, sflag, scont = classify(start)
     en, ev1, eflag, econt = classify(empty)
+    sflag = once_flags(start, sflag)
+    eflag = once_flags(empty, eflag)
     comment = any(re.match(r"Event::Comment", p) and b in ("()", "{}") for p, b in ev)
     return ("def bodyStartNames : List (List Char) := %s\n"
             "def bodyEmptyNames : List (List Char) := %s\n"
